@@ -388,3 +388,163 @@ func R69() Rule {
 		}
 	}}
 }
+
+// ---------------------------------------------------------------------------
+// R71: the scan callback passes a row over only because of the row itself.
+//
+// C18 / C03: "rows not written during the scan are returned exactly as stored",
+// "each stored row … exactly once".  In ReadRows the function handed to
+// Rows.Ascend* may continue the scan (return true) without having evaluated the
+// row only when the row's own content says so (it has no families).  A path that
+// continues past a row because of scan-level state — a "resumed" flag, a counter,
+// a remembered key that is not compared with this row's key — drops a row whose
+// identity was never looked at: after a restart of the range behind a deleted
+// row, the next (innocent) row is skipped.  Structural necessary condition:
+// every path from the callback's entry to a return that can continue the scan
+// either passes the filter evaluation of the row, or branches on a condition
+// computed from the row parameter.
+// ---------------------------------------------------------------------------
+
+func dependsOnValue(v, target ssa.Value, seen map[ssa.Value]bool, depth int) bool {
+	if v == nil || depth > 10 || seen[v] {
+		return false
+	}
+	seen[v] = true
+	if v == target {
+		return true
+	}
+	switch x := v.(type) {
+	case *ssa.UnOp:
+		if x.Op == token.MUL {
+			if cell := core.CellOf(x.X); cell != nil {
+				for _, st := range core.StoresTo(cell) {
+					if st.Parent() == x.Parent() && dependsOnValue(st.Val, target, seen, depth+1) {
+						return true
+					}
+				}
+				return false
+			}
+		}
+		return dependsOnValue(x.X, target, seen, depth+1)
+	case *ssa.FieldAddr:
+		return dependsOnValue(x.X, target, seen, depth+1)
+	case *ssa.Field:
+		return dependsOnValue(x.X, target, seen, depth+1)
+	case *ssa.IndexAddr:
+		return dependsOnValue(x.X, target, seen, depth+1)
+	case *ssa.BinOp:
+		return dependsOnValue(x.X, target, seen, depth+1) || dependsOnValue(x.Y, target, seen, depth+1)
+	case *ssa.Convert:
+		return dependsOnValue(x.X, target, seen, depth+1)
+	case *ssa.Extract:
+		return dependsOnValue(x.Tuple, target, seen, depth+1)
+	case *ssa.Phi:
+		for _, e := range x.Edges {
+			if dependsOnValue(e, target, seen, depth+1) {
+				return true
+			}
+		}
+	case *ssa.Call:
+		for _, a := range x.Call.Args {
+			if dependsOnValue(a, target, seen, depth+1) {
+				return true
+			}
+		}
+		if x.Call.IsInvoke() {
+			return dependsOnValue(x.Call.Value, target, seen, depth+1)
+		}
+	}
+	return false
+}
+
+func R71() Rule {
+	return Rule{Name: "R71", Run: func(c *core.Ctx) {
+		P := c.P
+		if P.SPkgs[core.PkgBttest] == nil {
+			return
+		}
+		root := P.MustFunc(core.PkgBttest, rpcReadRows)
+		c.Fn(rpcReadRows)
+		scope := P.Scope(root, func(f *ssa.Function) bool { return core.PkgPathOf(f) != core.PkgBttest })
+		within := setOf(scope)
+		eval := P.MustFunc(core.PkgBttest, "filterRow")
+		cbs := map[*ssa.Function]bool{}
+		var order []*ssa.Function
+		for _, ci := range core.CallsIn(scope, func(ci *core.CallInfo) bool {
+			return isRowsMethod(ci, "Ascend", "AscendRange", "AscendLessThan", "AscendGreaterOrEqual")
+		}) {
+			for _, a := range ci.Common.Args {
+				if _, isFn := a.Type().Underlying().(*types.Signature); !isFn {
+					continue
+				}
+				if cb := closureOf(a); cb != nil && cb.Blocks != nil && !cbs[cb] {
+					cbs[cb] = true
+					order = append(order, cb)
+				}
+			}
+		}
+		if len(order) == 0 {
+			c.Unknown("R71", "ReadRows/scan-callback", root.Pos(), "no function handed to Rows.Ascend* found in the scope of ReadRows")
+			return
+		}
+		for i, cb := range order {
+			construct := fmt.Sprintf("ReadRows/scan-callback#%d/rows-passed-over-by-their-own-content", i+1)
+			var row *ssa.Parameter
+			for _, p := range cb.Params {
+				if nm := core.NamedOf(p.Type()); nm != nil && nm.Obj().Name() == "Row" && protoPkgs[pkgPathOfNamed(nm)] {
+					row = p
+				}
+			}
+			if row == nil {
+				c.Unknown("R71", construct, cb.Pos(), "the scan callback has no row parameter")
+				continue
+			}
+			// blocks in which the row is certainly evaluated (the evaluator is called, directly or through a helper that always does)
+			through := map[*ssa.BasicBlock]bool{}
+			for _, ci := range core.CallsIn(scope, func(ci *core.CallInfo) bool { return ci.Static == eval }) {
+				for _, x := range liftInto(P, ci.Instr, within, true)[cb] {
+					through[x.Block()] = true
+				}
+			}
+			if len(through) == 0 {
+				c.Unknown("R71", construct, cb.Pos(), "the scan callback never reaches filterRow")
+				continue
+			}
+			// search: entry -> a continuing return, never entering an evaluating block, never crossing a branch decided by the row
+			var bad *ssa.Return
+			seen := map[*ssa.BasicBlock]bool{}
+			stack := []*ssa.BasicBlock{cb.Blocks[0]}
+			for len(stack) > 0 && bad == nil {
+				b := stack[len(stack)-1]
+				stack = stack[:len(stack)-1]
+				if seen[b] || through[b] {
+					continue
+				}
+				seen[b] = true
+				if len(b.Instrs) == 0 {
+					continue
+				}
+				switch last := b.Instrs[len(b.Instrs)-1].(type) {
+				case *ssa.Return:
+					if len(last.Results) > 0 {
+						if v, isC := core.ConstBool(last.Results[0]); !(isC && !v) {
+							bad = last
+						}
+					}
+				case *ssa.If:
+					if dependsOnValue(last.Cond, row, map[ssa.Value]bool{}, 0) {
+						continue // the row decides: not followed
+					}
+					stack = append(stack, b.Succs...)
+				default:
+					stack = append(stack, b.Succs...)
+				}
+			}
+			if bad != nil {
+				c.Bad("R71", construct, bad.Pos(), "the scan callback can continue past a row (this return) on a path that neither evaluates the row nor branches on anything computed from it: a row is dropped because of scan-level state (a resume flag, a counter) without its identity having been looked at — e.g. after the range is restarted behind a row that was deleted meanwhile, the next row, which nobody touched, is never returned")
+			} else {
+				c.Ok("R71", construct, cb.Pos(), true, "every continuing path of the scan callback evaluates the row or is chosen by the row's own content")
+			}
+		}
+	}}
+}
